@@ -127,8 +127,9 @@ DoAppend(recs) ==
             /\ UNCHANGED <<cfg, hw, ro, rd>>
 
 \* AppendMessageSet(bytes): replicated path, offsets and epochs come with the
-\* data (recs carry off); allowed on a read-only log.  Domain: recs start at
-\* the next offset and are consecutive (the caller guarantees it).
+\* data (recs carry off); allowed on a read-only log.  Domain: recs are
+\* consecutive and start at the next offset, or anywhere at or above it when
+\* the log is empty (a replica that joins after the leader trimmed its log).
 DoAppendSet(recs) ==
   LET ss == Rolled(segs, NextOff) IN
   /\ log' = log \o recs
